@@ -107,6 +107,13 @@ def body_factory(tier, seed):
                  b'[2,"id-\xff","Heartbeat",{}]', b'[3,"i",{"k":"caf\xe9"}]', b'[4,"i","GenericError","d\xc3",{}]', b'[2,"i","Heart\x80beat",{}]',
                  b'[2,"i","a",{"k\xc0\xaf":1}]', b'[3,"\xed\xa0\x80",{}]', b'[2,"i","a",{"v":"\xf8\x88\x80\x80\x80"}]', b'[2,"\xe2\x82","a",{}]',
                  "{" * 5000, "[" * 995 + "]" * 995, "\"\\ud800\"", "[2,\"\\u0000\",\"\",{}]", b"[2,\"i\",\"a\",{}]\xff", b"\xfe\xff\x00[\x00]"]
+        # long frames that do not parse, as text and as bytes (anything an error quotes of them must cope with either type and
+        # any length): truncated, undecodable, bad UTF-8 inside a long string, unbalanced, trailing garbage, oversized integer
+        for n in (3000, 70000):
+            big = '[2,"i","Heartbeat",{"k":"' + "x" * n
+            raws += [big, big.encode(), b"\xff" * n, b"[" * n, ('[2,"i","a",{"k":"' + "y" * n + '"}]').encode() + b"\xff",
+                     b'[2,"i","a",{"k":"' + b"\xc3" * n + b'"}]', ("[3,\"i\",{}]" + " " * n + "x").encode(),
+                     ('[2,"i","a",' + "9" * (n + 2000) + "]").encode(), bytearray(b"\x80" * n), "\x00" * n]
         for _ in range(200 if tier == "quick" else 3000):
             v = [rng.choice([2, 3, 4, rng.choice(ALPHABET)])] + [random_json(rng) for _ in range(rng.randrange(6))]
             try:
@@ -145,7 +152,7 @@ def body_factory(tier, seed):
             elif kind == "result":
                 m = CallResult(uid, random_json(rng), rng.choice([None, "Heartbeat"]))
             else:
-                m = CallError(uid, rng.choice(["GenericError", "X", ""]), rng.choice(["d", "", "dë"]),
+                m = CallError(uid, rng.choice(["GenericError", "X", ""]), rng.choice(["d", "", "dë", "x" * 256, "é" * 300, "long " * 400]),
                               rng.choice([None, {}, {"a": [1, None]}, [], "", 0, False]))
             txt = pack(m)
             rep.count("pack:" + txt[:4000])
